@@ -32,6 +32,8 @@ def gen_cases(tier, seed, ctx):
                 frags = ['-', 'b16384'] if big else rnd.sample(['-', 'b1', 'b3', 'b7', 'b64', 'b1000', 'b16384'], 2 if tier == 'quick' else 4)
                 for fr in frags:
                     cases.append(E.Case('u%d' % len(cases), W.op(A, Bb, tb, lim, fr), dict(kind='%s/%s' % (tag.split('/')[0], tname))))
+    for op, kind in U.drop_cases(rnd, W, tier, 150 if tier == 'quick' else 1500):
+        cases.append(E.Case('u%d' % len(cases), op, dict(kind=kind)))
     return cases
 
 def nontrivial(r):
